@@ -229,8 +229,9 @@ fn panic_site(p: &str) -> (String, String) {
     } else if m.contains("divide by zero") || m.contains("remainder with a divisor of zero") {
         "div-zero".to_string()
     } else {
-        let mut s: String = m.chars().filter(|c| !c.is_ascii_digit()).map(|c| if c == '/' || c == ' ' { '_' } else { c }).collect();
-        s.truncate(48);
+        let first = m.split(|c| c == ':' || c == '\n').next().unwrap_or("");
+        let mut s: String = first.chars().filter(|c| !c.is_ascii_digit()).map(|c| if c == '/' || c == ' ' || c == '*' { '_' } else { c }).collect();
+        s.truncate(40);
         format!("msg:{s}")
     };
     (file, class)
@@ -1370,10 +1371,544 @@ mod dec2 {
         v
     }
 }
+// ======================================================================
+// seed databases (built with the real engine, in a forked child)
+// ======================================================================
+mod seeddb {
+    use super::*;
+    use checks::sqlh::*;
+
+    pub struct Db {
+        pub name: &'static str,
+        /// (relative path, bytes), sorted by path
+        pub files: Vec<(String, Vec<u8>)>,
+    }
+
+    fn fork_do(f: impl FnOnce()) {
+        let pid = unsafe { libc::fork() };
+        if pid < 0 {
+            vcore::machinery("fork failed (seed build)");
+        }
+        if pid == 0 {
+            let ok = vcore::catch(f).is_ok();
+            unsafe { libc::_exit(if ok { 0 } else { 9 }) };
+        }
+        let mut status = 0;
+        unsafe { libc::waitpid(pid, &mut status, 0) };
+        if !(libc::WIFEXITED(status) && libc::WEXITSTATUS(status) == 0) {
+            vcore::machinery(&format!("seed database build failed (status {status:#x})"));
+        }
+    }
+    fn must(t: &TestDb, sql: &str) {
+        let r = t.exec(sql);
+        if !r.ok() {
+            panic!("seed statement failed: {sql}: {}", r.show());
+        }
+    }
+    fn read_tree(root: &Path) -> Vec<(String, Vec<u8>)> {
+        fn rec(root: &Path, dir: &Path, out: &mut Vec<(String, Vec<u8>)>) {
+            let mut ents: Vec<_> = std::fs::read_dir(dir).map(|d| d.filter_map(|e| e.ok()).map(|e| e.path()).collect()).unwrap_or_default();
+            ents.sort();
+            for p in ents {
+                if p.is_dir() {
+                    rec(root, &p, out);
+                } else {
+                    let rel = p.strip_prefix(root).unwrap().to_string_lossy().to_string();
+                    out.push((rel, std::fs::read(&p).unwrap_or_default()));
+                }
+            }
+        }
+        let mut v = Vec::new();
+        rec(root, root, &mut v);
+        v.sort();
+        v
+    }
+
+    pub const MAIN_TABLES: [(&str, &str, &str); 3] = [
+        ("a", "SELECT * FROM a WHERE id = 7", "SELECT * FROM a WHERE n = 5"),
+        ("b", "SELECT * FROM b WHERE id = 1", "SELECT id FROM b WHERE id = 2"),
+        ("c", "SELECT * FROM c WHERE id = 555", "SELECT id FROM c WHERE id = 3"),
+    ];
+    pub const WAL_TABLES: [(&str, &str, &str); 1] = [("w", "SELECT * FROM w WHERE id = 7", "SELECT * FROM w WHERE n = 3")];
+
+    fn build(scratch: &Path, name: &'static str, f: impl FnOnce(&Path)) -> Db {
+        let base = scratch.join(format!("seed_{name}"));
+        if !base.join("db").join("turdb.meta").exists() {
+            let _ = std::fs::remove_dir_all(&base);
+            std::fs::create_dir_all(&base).expect("seed dir");
+            fork_do(|| f(&base));
+        }
+        Db { name, files: read_tree(&base.join("db")) }
+    }
+
+    /// 3 tables: `a` with a secondary index, `b` with TOAST-sized values, `c` with a 2-level tree; cleanly closed.
+    pub fn main(scratch: &Path) -> Db {
+        build(scratch, "main", |base| {
+            let mut t = TestDb::create(base, "db").expect("create seed db");
+            t.keep();
+            must(&t, "CREATE TABLE a(id INT PRIMARY KEY, v TEXT, n INT)");
+            must(&t, "CREATE INDEX a_n ON a(n)");
+            must(&t, "CREATE TABLE b(id INT PRIMARY KEY, doc TEXT, raw BLOB)");
+            must(&t, "CREATE TABLE c(id INT PRIMARY KEY, s TEXT)");
+            for i in 0..40 {
+                must(&t, &format!("INSERT INTO a VALUES ({i}, 'v{i}', {})", (i * 7) % 13));
+            }
+            for i in 0..3 {
+                let big = "x".repeat(3000 + i * 2500);
+                must(&t, &format!("INSERT INTO b VALUES ({i}, '{big}', x'{}')", "ab".repeat(1500)));
+            }
+            for i in 0..700 {
+                must(&t, &format!("INSERT INTO c VALUES ({i}, '{}')", "p".repeat(40)));
+            }
+            t.db().close().expect("close seed db");
+        })
+    }
+
+    /// WAL enabled, committed inserts, process exits without close (frames left in wal/).
+    pub fn walcrash(scratch: &Path) -> Db {
+        build(scratch, "walcrash", |base| {
+            let mut t = TestDb::create(base, "db").expect("create seed db");
+            t.keep();
+            must(&t, "PRAGMA wal=ON");
+            must(&t, "CREATE TABLE w(id INT PRIMARY KEY, v TEXT, n INT)");
+            must(&t, "CREATE INDEX w_n ON w(n)");
+            for i in 0..20 {
+                must(&t, &format!("INSERT INTO w VALUES ({i}, 'w{i}', {})", i % 5));
+            }
+            unsafe { libc::_exit(0) };
+        })
+    }
+
+    /// catalog files of databases with different DDL shapes
+    pub fn catalogs(scratch: &Path) -> Vec<(String, Vec<u8>)> {
+        let shapes: [(&'static str, &[&str]); 5] = [
+            ("cat_empty", &[]),
+            ("cat_one", &["CREATE TABLE t(id INT PRIMARY KEY, v TEXT)"]),
+            ("cat_constraints", &["CREATE TABLE t(id BIGINT PRIMARY KEY, v VARCHAR(20) NOT NULL, u INT UNIQUE, d INT DEFAULT 5, f FLOAT, CHECK (d > 0))", "CREATE INDEX t_v ON t(v)", "CREATE UNIQUE INDEX t_fu ON t(f, u)"]),
+            ("cat_fk", &["CREATE TABLE p(id INT PRIMARY KEY)", "CREATE TABLE ch(id INT PRIMARY KEY, pid INT REFERENCES p(id) ON DELETE CASCADE, b BLOB, j JSONB, ts TIMESTAMP)"]),
+            ("cat_types", &["CREATE TABLE ty(a SMALLINT, b BOOLEAN, c DOUBLE, d DATE, e TIME, u UUID, v VECTOR(3), t TEXT)", "CREATE TABLE z(k INT, PRIMARY KEY (k))"]),
+        ];
+        let mut out = vec![];
+        for (name, ddl) in shapes {
+            let db = build(scratch, name, |base| {
+                let mut t = TestDb::create(base, "db").expect("create seed db");
+                t.keep();
+                for s in ddl {
+                    let r = t.exec(s);
+                    if !r.ok() {
+                        let _ = std::fs::write(base.join("ddl_failed.txt"), format!("{s}: {}", r.show()));
+                    }
+                }
+                t.db().close().expect("close seed db");
+            });
+            if let Some((_, b)) = db.files.iter().find(|(p, _)| p == "turdb.catalog") {
+                out.push((name.to_string(), b.clone()));
+            }
+        }
+        out
+    }
+}
+
 mod dec3 {
     use super::*;
-    pub fn all(_scratch: &Path) -> Vec<Decoder> {
-        vec![]
+    use turdb::btree::{InteriorNode, InteriorNodeMut, LeafNode, LeafNodeMut};
+    use turdb::hnsw::storage::{HnswFileHeader, HnswPage, HnswPageRef};
+    use turdb::hnsw::{DistanceFunction, HnswNode, HnswNodeInline, NodeId, QuantizationType};
+    use turdb::schema::persistence::CatalogPersistence;
+    use turdb::schema::Catalog;
+    use turdb::storage::{validate_page, IndexFileHeader, MetaFileHeader, MmapStorage, PageHeader, TableFileHeader, TrunkHeader, Wal, WalFrameHeader, WalSegment};
+
+    // ---------------- file headers ----------------
+    fn d_meta(_s: &Seed, b: &[u8], r: &mut Rec) {
+        if let Some(h) = r.call("from_bytes", || MetaFileHeader::from_bytes(b)) {
+            r.inf("getters", || (h.version(), h.page_size(), h.schema_count(), h.default_schema_id(), h.next_table_id(), h.next_index_id(), h.flags()));
+        }
+    }
+    fn d_table(_s: &Seed, b: &[u8], r: &mut Rec) {
+        if let Some(h) = r.call("from_bytes", || TableFileHeader::from_bytes(b)) {
+            r.inf("getters", || (h.table_id(), h.row_count(), h.root_page(), h.column_count(), h.first_free_page(), h.auto_increment(), h.rightmost_hint()));
+        }
+    }
+    fn d_index(_s: &Seed, b: &[u8], r: &mut Rec) {
+        if let Some(h) = r.call("from_bytes", || IndexFileHeader::from_bytes(b)) {
+            r.inf("getters", || (h.index_id(), h.table_id(), h.root_page(), h.key_column_count(), h.is_unique(), h.index_type()));
+        }
+    }
+    fn d_hnsw_hdr(_s: &Seed, b: &[u8], r: &mut Rec) {
+        if let Some(h) = r.call("from_bytes", || HnswFileHeader::from_bytes(b)) {
+            r.inf("getters", || (h.index_id(), h.table_id(), h.dimensions(), h.m(), h.m0(), h.ef_construction(), h.ef_search(), h.max_level(), h.node_count(), h.vector_count(), h.first_free_page()));
+            r.inf("distance_fn", || h.distance_fn());
+            r.inf("quantization", || h.quantization());
+            r.inf("entry_point", || h.entry_point());
+            r.inf("index_from_header", || turdb::hnsw::HnswIndex::from_header(h).dimensions());
+        }
+    }
+    fn file_of<'a>(db: &'a seeddb::Db, p: &str) -> &'a [u8] {
+        &db.files.iter().find(|(n, _)| n == p).unwrap_or_else(|| vcore::machinery(&format!("seed db lacks {p}"))).1
+    }
+    fn headers(db: &seeddb::Db, wdb: &seeddb::Db) -> Vec<Decoder> {
+        let h = |p: &str| file_of(db, p)[..128].to_vec();
+        let meta = vec![Seed::new("main", h("turdb.meta")), Seed::new("walcrash", file_of(wdb, "turdb.meta")[..128].to_vec()), Seed::new("page0", file_of(db, "turdb.meta")[..512].to_vec())];
+        let table = vec![Seed::new("a", h("root/a.tbd")), Seed::new("c", h("root/c.tbd")), Seed::new("b_toast", h("root/b_toast.tbd")), Seed::new("sys", h("turdb_catalog/wal_stats.tbd"))];
+        let index = vec![Seed::new("a_n", h("root/a_a_n.idx")), Seed::new("a_pk", h("root/a_id_pkey.idx")), Seed::new("c_pk", h("root/c_id_pkey.idx"))];
+        let mut hn = vec![];
+        for (name, hd, ep) in [
+            ("l2", HnswFileHeader::new(3, 7, 128, 16, 200, 50, DistanceFunction::L2, QuantizationType::None), None),
+            ("cos-sq8", HnswFileHeader::new(u64::MAX, 1, 3, 4, 10, 10, DistanceFunction::Cosine, QuantizationType::SQ8), Some(NodeId::new(5, 2))),
+            ("ip-pq", HnswFileHeader::new(1, u64::MAX, 1536, 64, 400, 100, DistanceFunction::InnerProduct, QuantizationType::PQ), Some(NodeId::new(1, 0))),
+        ] {
+            let mut hd = hd;
+            hd.set_entry_point(ep);
+            hd.set_node_count(12);
+            let mut buf = vec![0u8; 128];
+            hd.write_to(&mut buf).expect("hnsw header write");
+            hn.push(Seed::new(name, buf));
+        }
+        vec![
+            Decoder { name: "meta_header", page: false, strings: true, seeds: meta, f: d_meta },
+            Decoder { name: "table_header", page: false, strings: true, seeds: table, f: d_table },
+            Decoder { name: "index_header", page: false, strings: true, seeds: index, f: d_index },
+            Decoder { name: "hnsw_header", page: false, strings: true, seeds: hn, f: d_hnsw_hdr },
+        ]
+    }
+
+    // ---------------- HNSW nodes and pages ----------------
+    fn d_hnsw_node(_s: &Seed, b: &[u8], r: &mut Rec) {
+        if let Some(n) = r.call("read_from", || HnswNode::read_from(b)) {
+            r.inf("getters", || (n.row_id(), n.max_level(), n.level0_neighbor_count(), n.level0_neighbors().len(), n.serialized_size()));
+            for l in [0u8, 1, 2, 255] {
+                r.inf("neighbors_at_level", || n.neighbors_at_level(l).len());
+            }
+        }
+        if let Some(n) = r.call("inline.read_from", || HnswNodeInline::read_from(b)) {
+            r.inf("inline.getters", || (n.row_id(), n.max_level(), n.level0_neighbor_count(), n.level0_neighbors().len()));
+            for l in [0u8, 1, 2, 255] {
+                r.inf("inline.neighbors_at_level", || n.neighbors_at_level(l).len());
+            }
+        }
+    }
+    fn hnsw_node_bytes(levels: u8, l0: usize, per: usize) -> Vec<u8> {
+        let mut n = HnswNode::new(99, levels);
+        for i in 0..l0 {
+            n.add_level0_neighbor(NodeId::new(i as u32 + 1, i as u16));
+        }
+        for l in 1..=levels {
+            for i in 0..per {
+                n.add_neighbor_at_level(l, NodeId::new(100 + i as u32, l as u16));
+            }
+        }
+        let mut buf = vec![0u8; n.serialized_size()];
+        let w = n.write_to(&mut buf);
+        buf.truncate(w);
+        buf
+    }
+    fn d_hnsw_page(_s: &Seed, b: &[u8], r: &mut Rec) {
+        if let Some(p) = r.call("from_bytes", || HnswPageRef::from_bytes(b)) {
+            r.inf("free_space", || p.free_space());
+            r.inf("can_fit", || p.can_fit(100));
+            let Some(n) = r.inf("slot_count", || p.slot_count()) else { return };
+            let mut idx: Vec<u16> = (0..n.min(24)).collect();
+            if n > 24 {
+                idx.push(n - 1);
+            }
+            idx.push(n);
+            for i in idx {
+                r.inf("get_slot", || p.get_slot(i));
+                if let Some(d) = r.call("read_node_data", || p.read_node_data(i)) {
+                    r.call("node.read_from", || HnswNode::read_from(d));
+                }
+            }
+        }
+    }
+    fn hnsw_page_seed(name: &str, nodes: &[Vec<u8>], delete: Option<u16>) -> Seed {
+        let mut page = vec![0u8; PAGE];
+        {
+            let mut p = HnswPage::init(&mut page).expect("hnsw page init");
+            for n in nodes {
+                let s = p.allocate_slot(n.len() as u16).expect("hnsw slot");
+                p.write_node_data(s, n).expect("hnsw write");
+            }
+            if let Some(d) = delete {
+                p.mark_deleted(d).expect("hnsw delete");
+            }
+        }
+        let used_low = 64 + nodes.len() * 4 + 8;
+        let used_high = PAGE - nodes.iter().map(|n| n.len()).sum::<usize>() - 8;
+        Seed::new(name, page).dense(vec![0..used_low, used_high..PAGE])
+    }
+    fn hnsw() -> Vec<Decoder> {
+        let nodes = vec![Seed::new("l0-only", hnsw_node_bytes(0, 3, 0)), Seed::new("two-levels", hnsw_node_bytes(2, 2, 2)), Seed::new("empty", hnsw_node_bytes(0, 0, 0)), Seed::new("one-level-full", hnsw_node_bytes(1, 8, 6))];
+        let pages = vec![
+            hnsw_page_seed("empty", &[], None),
+            hnsw_page_seed("one", &[hnsw_node_bytes(1, 2, 1)], None),
+            hnsw_page_seed("three-deleted", &[hnsw_node_bytes(0, 3, 0), hnsw_node_bytes(2, 2, 2), hnsw_node_bytes(0, 0, 0)], Some(1)),
+        ];
+        vec![Decoder { name: "hnsw_node", page: false, strings: true, seeds: nodes, f: d_hnsw_node }, Decoder { name: "hnsw_page", page: true, strings: false, seeds: pages, f: d_hnsw_page }]
+    }
+
+    // ---------------- page header / validate_page / B-tree nodes ----------------
+    fn d_page(_s: &Seed, b: &[u8], r: &mut Rec) {
+        if let Some(h) = r.call("header.from_bytes", || PageHeader::from_bytes(b)) {
+            r.inf("header.getters", || (h.page_type(), h.flags(), h.cell_count(), h.free_start(), h.free_end(), h.free_space(), h.frag_bytes(), h.right_child(), h.next_leaf()));
+        }
+        r.call("validate_page", || validate_page(b));
+        if b.len() >= 16 {
+            if let Some(t) = r.call("trunk.from_bytes", || TrunkHeader::from_bytes(&b[16..])) {
+                r.inf("trunk.getters", || (t.next_trunk(), t.count(), t.is_full(), t.is_empty()));
+            }
+        }
+    }
+    fn slot_indexes(n: usize) -> Vec<usize> {
+        let mut idx: Vec<usize> = (0..n.min(2048)).collect();
+        if n > 2048 {
+            idx.push(n - 1);
+        }
+        idx.push(n);
+        idx
+    }
+    fn d_leaf(s: &Seed, b: &[u8], r: &mut Rec) {
+        let Some(l) = r.call("from_page", || LeafNode::from_page(b)) else { return };
+        r.inf("free_space", || l.free_space());
+        r.inf("next_leaf", || l.next_leaf());
+        let Some(n) = r.inf("cell_count", || l.cell_count() as usize) else { return };
+        for i in slot_indexes(n) {
+            r.call("slot_at", || l.slot_at(i).map(|s| (s.offset(), s.key_len(), s.prefix_as_u32())));
+            r.call("key_at", || l.key_at(i).map(|k| k.len()));
+            r.call("value_at", || l.value_at(i).map(|v| v.len()));
+            r.call("value_len_at", || l.value_len_at(i));
+        }
+        if let Aux::Probes(ps) = &s.aux {
+            for p in ps {
+                r.inf("find_key", || l.find_key(p));
+            }
+        }
+        r.inf("batch_iterator", || l.batch_iterator().take(70000).count());
+    }
+    fn d_interior(s: &Seed, b: &[u8], r: &mut Rec) {
+        let Some(l) = r.call("from_page", || InteriorNode::from_page(b)) else { return };
+        r.inf("right_child", || l.right_child());
+        let Some(n) = r.inf("cell_count", || l.cell_count() as usize) else { return };
+        for i in slot_indexes(n) {
+            r.call("slot_at", || l.slot_at(i).map(|s| (s.offset(), s.key_len(), s.child_page())));
+            r.call("key_at", || l.key_at(i).map(|k| k.len()));
+        }
+        if let Aux::Probes(ps) = &s.aux {
+            for p in ps {
+                r.call("find_child", || l.find_child(p));
+            }
+        }
+    }
+    fn used_ranges(page: &[u8]) -> Vec<std::ops::Range<usize>> {
+        let h = PageHeader::from_bytes(page).expect("seed page header");
+        vec![0..(h.free_start() as usize + 16).min(PAGE), (h.free_end() as usize).saturating_sub(16)..PAGE]
+    }
+    fn probes_for(keys: &[Vec<u8>]) -> Vec<Vec<u8>> {
+        let mut p: Vec<Vec<u8>> = vec![vec![], vec![0], vec![0xFF; 12]];
+        for k in keys.iter().take(6) {
+            p.push(k.clone());
+            let mut x = k.clone();
+            x.push(0);
+            p.push(x);
+        }
+        if let Some(k) = keys.last() {
+            p.push(k.clone());
+        }
+        p
+    }
+    fn leaf_seed(name: &str, cells: &[(Vec<u8>, Vec<u8>)], next: u32) -> Seed {
+        let mut page = vec![0u8; PAGE];
+        {
+            let mut l = LeafNodeMut::init(&mut page).expect("leaf init");
+            for (k, v) in cells {
+                l.insert_cell(k, v).expect("leaf insert");
+            }
+            l.set_next_leaf(next).expect("next leaf");
+        }
+        let keys: Vec<Vec<u8>> = cells.iter().map(|c| c.0.clone()).collect();
+        let d = used_ranges(&page);
+        Seed::new(name, page).aux(Aux::Probes(probes_for(&keys))).dense(d)
+    }
+    fn interior_seed(name: &str, seps: &[(Vec<u8>, u32)], right: u32) -> Seed {
+        let mut page = vec![0u8; PAGE];
+        {
+            let mut l = InteriorNodeMut::init(&mut page, right).expect("interior init");
+            for (k, c) in seps {
+                l.insert_separator(k, *c).expect("separator insert");
+            }
+        }
+        let keys: Vec<Vec<u8>> = seps.iter().map(|c| c.0.clone()).collect();
+        let d = used_ranges(&page);
+        Seed::new(name, page).aux(Aux::Probes(probes_for(&keys))).dense(d)
+    }
+    fn rowkey(i: u64) -> Vec<u8> {
+        i.to_be_bytes().to_vec()
+    }
+    fn db_page(db: &seeddb::Db, file: &str, want: u8) -> Option<Vec<u8>> {
+        let f = file_of(db, file);
+        (1..f.len() / PAGE).map(|p| &f[p * PAGE..(p + 1) * PAGE]).find(|p| p[0] == want).map(|p| p.to_vec())
+    }
+    fn db_leaf_seed(name: &str, page: Vec<u8>) -> Seed {
+        let keys: Vec<Vec<u8>> = {
+            let l = LeafNode::from_page(&page).expect("db leaf");
+            (0..l.cell_count() as usize).step_by((l.cell_count() as usize / 5).max(1)).map(|i| l.key_at(i).expect("db leaf key").to_vec()).collect()
+        };
+        let d = used_ranges(&page);
+        Seed::new(name, page).aux(Aux::Probes(probes_for(&keys))).dense(d)
+    }
+    fn btree(db: &seeddb::Db) -> Vec<Decoder> {
+        let mut leaves = vec![leaf_seed("empty", &[], 0)];
+        leaves.push(leaf_seed("one", &[(rowkey(1), vec![1, 2, 3])], 7));
+        leaves.push(leaf_seed("short-keys", &[(vec![], vec![]), (vec![1], vec![9]), (vec![1, 2], vec![]), (vec![1, 2, 3], vec![8; 300])], 0));
+        leaves.push(leaf_seed("eight-shared-prefix", &(0..8u64).map(|i| (rowkey(i), vec![i as u8; 10])).collect::<Vec<_>>(), 3));
+        leaves.push(leaf_seed("text-keys-20", &(0..20u32).map(|i| (format!("key-{:03}-{}", i * 7 % 20, "z".repeat(i as usize % 5)).into_bytes(), vec![0xAB; (i as usize * 37) % 400])).collect::<Vec<_>>(), 0));
+        leaves.push(leaf_seed("big-values", &[(rowkey(1), vec![5; 4000]), (rowkey(2), vec![6; 4000]), (rowkey(3), vec![7; 3000])], 9));
+        if let Some(p) = db_page(db, "root/a.tbd", 2) {
+            leaves.push(db_leaf_seed("db-table-a", p));
+        }
+        if let Some(p) = db_page(db, "root/a_a_n.idx", 2) {
+            leaves.push(db_leaf_seed("db-index-a_n", p));
+        }
+        let mut ints = vec![interior_seed("empty", &[], 2)];
+        ints.push(interior_seed("one", &[(rowkey(100), 2)], 3));
+        ints.push(interior_seed("ten", &(0..10u64).map(|i| (rowkey(i * 50), i as u32 + 2)).collect::<Vec<_>>(), 99));
+        ints.push(interior_seed("text-seps", &(0..12u32).map(|i| (format!("sep{:02}{}", i, "q".repeat(i as usize % 4)).into_bytes(), i + 2)).collect::<Vec<_>>(), 50));
+        if let Some(p) = db_page(db, "root/c.tbd", 1) {
+            let keys: Vec<Vec<u8>> = {
+                let l = InteriorNode::from_page(&p).expect("db interior");
+                (0..l.cell_count() as usize).map(|i| l.key_at(i).expect("db sep").to_vec()).collect()
+            };
+            let d = used_ranges(&p);
+            ints.push(Seed::new("db-table-c-root", p).aux(Aux::Probes(probes_for(&keys))).dense(d));
+        }
+        let mut pages = vec![Seed::new("zero", vec![0u8; PAGE])];
+        pages.push(Seed::new("leaf", leaves[3].bytes.clone()).dense(vec![0..64]));
+        pages.push(Seed::new("interior", ints[2].bytes.clone()).dense(vec![0..64]));
+        {
+            let mut p = vec![0u8; PAGE];
+            PageHeader::new(turdb::storage::PageType::FreeList).write_to(&mut p).expect("page header write");
+            TrunkHeader::with_next(5).write_to(&mut p[16..]).expect("trunk write");
+            pages.push(Seed::new("freelist-trunk", p).dense(vec![0..64]));
+        }
+        vec![
+            Decoder { name: "page", page: true, strings: false, seeds: pages, f: d_page },
+            Decoder { name: "leaf", page: true, strings: false, seeds: leaves, f: d_leaf },
+            Decoder { name: "interior", page: true, strings: false, seeds: ints, f: d_interior },
+        ]
+    }
+
+    // ---------------- catalog ----------------
+    fn d_catalog(_s: &Seed, b: &[u8], r: &mut Rec) {
+        if b.len() >= 128 {
+            let mut c = Catalog::new();
+            r.call("deserialize", || CatalogPersistence::deserialize(&b[128..], &mut c));
+        }
+        let p = r.scratch.join("cat_case.catalog");
+        std::fs::write(&p, b).expect("write catalog case");
+        let mut c = Catalog::new();
+        if r.call("load", || CatalogPersistence::load(&p, &mut c)).is_some() {
+            r.call("reserialize", || CatalogPersistence::serialize(&c));
+        }
+    }
+    fn catalog(scratch: &Path, db: &seeddb::Db) -> Decoder {
+        let mut seeds: Vec<Seed> = seeddb::catalogs(scratch).into_iter().map(|(n, b)| Seed::new(&n, b).dense(vec![0..128])).collect();
+        seeds.push(Seed::new("main-db", file_of(db, "turdb.catalog").to_vec()).dense(vec![0..128]));
+        Decoder { name: "catalog", page: false, strings: true, seeds, f: d_catalog }
+    }
+
+    // ---------------- WAL ----------------
+    fn d_wal(s: &Seed, b: &[u8], r: &mut Rec) {
+        let Aux::Wal { file_id, page_no } = &s.aux else { return };
+        let dir = r.scratch.join("wal_case");
+        let _ = std::fs::remove_dir_all(&dir);
+        std::fs::create_dir_all(&dir).expect("wal case dir");
+        let seg = dir.join("wal.000001");
+        std::fs::write(&seg, b).expect("write wal case");
+        if let Some(mut sg) = r.call("segment.open", || WalSegment::open(&seg, 1)) {
+            for _ in 0..6 {
+                if r.call("segment.read_frame", || sg.read_frame().map(|(h, p)| (h.frame_type(), h.actual_file_id(), h.undo_table_id(), h.undo_txn_id(), p.len()))).is_none() {
+                    break;
+                }
+            }
+            if r.call("segment.reset_position", || sg.reset_position()).is_some() {
+                for _ in 0..6 {
+                    if r.call("segment.read_header_only", || sg.read_header_only().map(|h| (h.is_undo_frame(), h.is_redo_frame()))).is_none() {
+                        break;
+                    }
+                }
+                if r.call("segment.reset_position", || sg.reset_position()).is_some() {
+                    let mut buf = vec![0u8; 32 + PAGE];
+                    r.call("segment.read_frame_into", || sg.read_frame_into(&mut buf));
+                }
+            }
+        }
+        if let Some(w) = r.call("wal.open", || Wal::open(&dir)) {
+            r.inf("wal.frame_count", || (w.frame_count(), w.total_wal_size_bytes(), w.needs_checkpoint()));
+            r.call("wal.read_page", || w.read_page(*file_id, *page_no).map(|p| p.map(|v| v.len())));
+            r.call("wal.read_page", || w.read_page(0, 0).map(|p| p.map(|v| v.len())));
+            let st = r.scratch.join("wal_case_storage.tbd");
+            let _ = std::fs::remove_file(&st);
+            if let Some(mut storage) = r.call("storage.create", || MmapStorage::create(&st, 2)) {
+                r.call("wal.recover", || w.recover(&mut storage));
+                r.call("wal.recover_for_file", || w.recover_for_file(&mut storage, *file_id));
+                r.inf("storage.page_count", || storage.page_count());
+            }
+        }
+    }
+    fn wal_frame(file_id: u64, page_no: u32, db_size: u32, fill: u8, undo: Option<(u32, u32)>) -> Vec<u8> {
+        let mut page = vec![0u8; PAGE];
+        for (i, b) in page.iter_mut().enumerate() {
+            *b = fill.wrapping_add((i % 251) as u8);
+        }
+        let mut h = match undo {
+            Some((t, x)) => WalFrameHeader::new_undo_frame(page_no, db_size, 0x1111, 0x2222, 0, t, x),
+            None => WalFrameHeader::new_with_file_id(page_no, db_size, 0x1111, 0x2222, 0, file_id),
+        };
+        h.checksum = turdb::storage::compute_checksum_pub(&h, &page);
+        let mut v = frame_header_bytes(&h);
+        v.extend_from_slice(&page);
+        v
+    }
+    pub fn frame_header_bytes(h: &WalFrameHeader) -> Vec<u8> {
+        let mut v = Vec::with_capacity(32);
+        v.extend_from_slice(&h.file_id.to_le_bytes());
+        v.extend_from_slice(&h.page_no.to_le_bytes());
+        v.extend_from_slice(&h.db_size.to_le_bytes());
+        v.extend_from_slice(&h.salt1.to_le_bytes());
+        v.extend_from_slice(&h.salt2.to_le_bytes());
+        v.extend_from_slice(&h.checksum.to_le_bytes());
+        v
+    }
+    fn wal(wdb: &seeddb::Db) -> Decoder {
+        let mut seeds = vec![];
+        seeds.push(Seed::new("one-frame", wal_frame(0, 1, 2, 3, None)).aux(Aux::Wal { file_id: 0, page_no: 1 }).dense(vec![0..96]));
+        let mut two = wal_frame(5, 0, 2, 9, None);
+        two.extend(wal_frame(5, 1, 2, 77, None));
+        seeds.push(Seed::new("two-frames-file5", two).aux(Aux::Wal { file_id: 5, page_no: 1 }).dense(vec![0..96, 16416..16416 + 96]));
+        let mut un = wal_frame(0, 1, 2, 1, Some((3, 44)));
+        un.extend(wal_frame(3, 1, 2, 2, None));
+        let undo_id = (1u64 << 56) | (3u64 << 32) | 44;
+        seeds.push(Seed::new("undo-then-redo", un).aux(Aux::Wal { file_id: undo_id, page_no: 1 }).dense(vec![0..96, 16416..16416 + 96]));
+        {
+            // first two frames written by the real engine (WAL-crashed seed database)
+            let f = file_of(wdb, "wal/wal.000001");
+            if f.len() >= 2 * 16416 {
+                let fid = u64::from_le_bytes(f[0..8].try_into().unwrap());
+                let pno = u32::from_le_bytes(f[8..12].try_into().unwrap());
+                seeds.push(Seed::new("engine-two-frames", f[..2 * 16416].to_vec()).aux(Aux::Wal { file_id: fid, page_no: pno }).dense(vec![0..128, 16416..16416 + 128]));
+            }
+        }
+        Decoder { name: "wal", page: false, strings: true, seeds, f: d_wal }
+    }
+
+    pub fn all(scratch: &Path) -> Vec<Decoder> {
+        let db = seeddb::main(scratch);
+        let wdb = seeddb::walcrash(scratch);
+        let mut v = headers(&db, &wdb);
+        v.extend(hnsw());
+        v.extend(btree(&db));
+        v.push(catalog(scratch, &db));
+        v.push(wal(&wdb));
+        v
     }
 }
 
@@ -1462,6 +1997,25 @@ impl Check for C23 {
     }
 
     fn run(&self, ctx: &Ctx, rep: &mut Reporter) {
+        quiet_env();
+        if ctx.opt("dumpseed").is_some() {
+            for db in [seeddb::main(&ctx.scratch), seeddb::walcrash(&ctx.scratch)] {
+                for (p, b) in &db.files {
+                    eprintln!("{} {} {}", db.name, p, b.len());
+                }
+            }
+            for (n, b) in seeddb::catalogs(&ctx.scratch) {
+                eprintln!("catalog {} {}", n, b.len());
+            }
+            for e in std::fs::read_dir(&ctx.scratch).unwrap() {
+                let p = e.unwrap().path().join("ddl_failed.txt");
+                if p.exists() {
+                    eprintln!("{}", std::fs::read_to_string(&p).unwrap());
+                }
+            }
+            rep.bulk(1, 1);
+            return;
+        }
         let shared = Shared::new();
         let mut env = Env::new(&ctx.scratch);
         let blocks = all_blocks(ctx, None);
@@ -1480,6 +2034,7 @@ impl Check for C23 {
     }
 
     fn replay(&self, ctx: &Ctx, case: &Value, rep: &mut Reporter) {
+        quiet_env();
         let shared = Shared::new();
         let mut env = Env::new(&ctx.scratch);
         let key = case["block"].as_str().unwrap_or_else(|| vcore::machinery("C23 replay: case without block key"));
@@ -1549,6 +2104,14 @@ impl Check for C23 {
             }
         }
     }
+}
+
+/// eyre captures (and `expect` prints) a symbolized backtrace per error when
+/// RUST_BACKTRACE is set: milliseconds per Err.  Decided once per process by
+/// std, so fix it before the first error is created.
+fn quiet_env() {
+    std::env::set_var("RUST_BACKTRACE", "0");
+    std::env::set_var("RUST_LIB_BACKTRACE", "0");
 }
 
 fn main() {
